@@ -953,6 +953,21 @@ def check_c17(ctx: Ctx, job):
                     loader = None
                     gc.collect()
                     loader = sdl.build(cfg)
+                elif op[0] == "start_fail":
+                    # a new loader whose op[1]-th worker process cannot be started: iter() raises, and the workers that
+                    # were already up must not be left behind
+                    it = None
+                    loader = None
+                    gc.collect()
+                    loader = sdl.build(cfg, ctx=vsched.VCtx(fail_start_at=op[1]))
+                    try:
+                        it = iter(loader)
+                        ctx.fail("C17:start_failure_swallowed", job, f"step {step_i} {op}: Process.start() raised but iter() returned an iterator")
+                        return
+                    except OSError:
+                        it = None
+                    loader = None
+                    gc.collect()
             except vsched.VHang as e:
                 ctx.fail("C17:hang", job, f"step {step_i} {op}: {e}")
                 return
@@ -967,7 +982,7 @@ def check_c17(ctx: Ctx, job):
                     ctx.fail("C17:persistent_duplicated", job, f"after step {step_i} {op}: {len(alive)} live worker processes for num_workers={W}")
                     return
             else:
-                finished = op[0] in ("epoch", "abandon", "load", "new_loader")
+                finished = op[0] in ("epoch", "abandon", "load", "new_loader", "start_fail")
                 if finished and alive and op[0] != "epoch":
                     ctx.fail("C17:workers_not_released", job, f"after step {step_i} {op}: still alive {[v.name for v in alive]}")
                     return
@@ -1010,5 +1025,8 @@ def gen_c17(ctx: Ctx, n: int):
                 hist.append(["load"])
             else:
                 hist.append(["new_loader"])
+        if cfg["W"] >= 2 and ctx.rng.random() < 0.25:
+            # the history ends with a loader one of whose worker processes cannot be started (not the first one)
+            hist.append(["start_fail", ctx.rng.randrange(1, cfg["W"])])
         jobs.append({"cfg": cfg, "seed": ctx.rng.randrange(1 << 30), "history": hist, "adversarial": ctx.rng.random() < 0.3})
     return jobs
